@@ -23,6 +23,12 @@ def _init_worker():
     import warnings
     warnings.filterwarnings("ignore")
     os.environ.setdefault("OMP_NUM_THREADS", "1")
+    # The cyclic garbage collector may run in ANY thread, also in the solver watchdog's timer threads, where finalising z3
+    # objects would race with the main thread inside z3 (contexts are not thread-safe; seen as a z3 'UNEXPECTED CODE WAS
+    # REACHED' abort on a loaded machine).  Automatic collection is switched off in the workers; explore_task / validate_task
+    # collect explicitly, in the main thread, between paths.
+    import gc
+    gc.disable()
     # never outlive the checking process (a killed ./check must not leave workers computing)
     import threading
     parent = os.getppid()
